@@ -1863,14 +1863,14 @@ where
             self.store.add(packet.clone().try_into().unwrap()).unwrap();
         }
 
+        self.pid_pubcomp.insert(packet_id);
         if self.status == ConnectionStatus::Connected {
-            self.pid_pubcomp.insert(packet_id);
             events.push(GenericEvent::RequestSendPacket {
                 packet: packet.into(),
                 release_packet_id_if_send_error: None,
             });
+            self.send_post_process(&mut events);
         }
-        self.send_post_process(&mut events);
 
         events
     }
@@ -1899,14 +1899,14 @@ where
             self.store.add(packet.clone().try_into().unwrap()).unwrap();
         }
 
+        self.pid_pubcomp.insert(packet_id);
         if self.status == ConnectionStatus::Connected {
-            self.pid_pubcomp.insert(packet_id);
             events.push(GenericEvent::RequestSendPacket {
                 packet: packet.into(),
                 release_packet_id_if_send_error: None,
             });
+            self.send_post_process(&mut events);
         }
-        self.send_post_process(&mut events);
 
         events
     }
